@@ -7,8 +7,25 @@ bin/c03_driver.  impl = M compares the exact sequence of transport operations (n
 calls per message, their bytes, the flushes); impl |= S is judged by an independent strict decoder
 and JSON reader written in Python below (themselves cross-checked against the Coq spec_decode /
 loads on mutated streams on every run)."""
-import asyncio, enum, json, logging, os, threading, time
+import asyncio, enum, json, logging, os, resource, threading, time
 import core
+
+
+def _raise_stack_limit():
+    """The extracted model recurses once per list element (no tail calls in extracted code): a body of
+    several hundred KiB needs more than the default 8 MiB stack.  The soft limit is inherited by the
+    driver process; threads of this process keep the size fixed at start-up."""
+    want = 2 << 30
+    soft, hard = resource.getrlimit(resource.RLIMIT_STACK)
+    if soft != resource.RLIM_INFINITY and soft < want:
+        new = want if hard == resource.RLIM_INFINITY or hard >= want else hard
+        try:
+            resource.setrlimit(resource.RLIMIT_STACK, (new, hard))
+        except (ValueError, OSError):
+            pass
+
+
+_raise_stack_limit()
 
 WR = {"none": 0, "plain": 1, "stdout": 2, "await": 3}
 TMO = 20.0           # every wait in this file is bounded by this many seconds
@@ -469,7 +486,8 @@ def perform(p, s):
     elif k == "notif":
         p.notify("".join(map(chr, s["method"])), to_py(s["params"]))
     elif k == "req":
-        p.send_request("".join(map(chr, s["method"])), to_py(s["params"]), msg_id=to_py(s["id"]))
+        cb = (lambda result: None) if s.get("cb") else None
+        p.send_request("".join(map(chr, s["method"])), to_py(s["params"]), callback=cb, msg_id=to_py(s["id"]))
     else:
         p._send_data(to_py(s["data"]))
 
@@ -478,7 +496,12 @@ def perform(p, s):
 class C03(core.Property):
     id = "C03"
     modules = ["Proofs.JsonProofs", "Proofs.WireProofs", "Props.C03"]
-    obligations = ["C03"]
+    obligations = ["dumps_ascii", "header_len_is_byte_len", "parse_dec_digits", "header_decodes",
+                   "spec_decode_frames", "send_data_tree", "do_send_frames", "sender_stream_decodes",
+                   "escape_roundtrip", "scalar_pairfree", "read_value_dumps", "loads_dumps",
+                   "interleave_flat_map", "interleave_map_inv", "merge_of_atomic_writes", "run_schedule_interleave",
+                   "flush_last", "sent_trees_expected", "sender_reads_back", "C03", "C03_reference_agrees",
+                   "C03_schedules_covered", "C03_pairfree_necessary", "C03_scalar_strings_ok", "C03_nonvacuous"]
     coq_targets = ["Props/C03.vo", "Extract/ExtractC03.vo"]
     rule = ("a case is a configuration (protocol flavour, writer kind, include_headers) and a list of sending calls "
             "(_send_response result / error, notify, send_request, raw _send_data) or several senders plus a schedule "
@@ -589,8 +612,12 @@ class C03(core.Property):
         if k == "notif":
             return {"t": "notif", "method": meth(), "params": rng.choice([None, pay()])}
         if k == "req":
-            return {"t": "req", "id": self.rid(rng, True), "method": meth(), "params": rng.choice([None, pay()])}
-        return {"t": "raw", "data": rng.choice([None, 0, False, S(""), [], {"o": []}, pay()])}
+            return {"t": "req", "id": self.rid(rng, True), "method": meth(), "params": rng.choice([None, pay()]),
+                    "cb": rng.random() < 0.3}
+        d = rng.choice([None, 0, False, S(""), [], {"o": []}, pay()])
+        if isinstance(d, dict) and ("ns" in d or "enum" in d or "pos" in d):
+            d = [d]       # bool() of such an object is not that of the tree it serialises to
+        return {"t": "raw", "data": d}
 
     def big_send(self, rng, nbytes, cls):
         """one message whose body is about nbytes long, built from characters of one class"""
@@ -726,10 +753,35 @@ class C03(core.Property):
         out = []
         for c in cases:
             try:
-                out.append(self.run_case(c) if c["k"] == "case" else self.run_sched(c))
+                out.append(self.run_case(c) if c["k"] == "case" else self.run_sched(c) if c["k"] == "sched"
+                           else self.run_other(chk, c))
             except Exception as ex:
                 out.append(["raise", type(ex).__name__])
         return out
+
+    def run_other(self, chk, c):
+        """replay of a record produced by extra_checks"""
+        k = c["k"]
+        if k == "pipe-stress":
+            v = self.pipe_stress(chk, {})
+            return v[0]["impl"] if v else "ok"
+        if k == "tcp-thread-stress":
+            v = self.tcp_stress(chk, {})
+            return v[0]["impl"] if v else "ok"
+        if k == "escape":
+            return json.dumps(chr(c["cp"]))[1:-1].encode("ascii").hex()
+        if k == "oracle-decode":
+            r = py_decode(bytes.fromhex(c["stream"]))
+            return None if r is None else [b.hex() for b in r]
+        if k == "oracle-loads":
+            try:
+                return json.dumps(ordered_py(py_loads(bytes.fromhex(c["body"])))).encode("ascii").hex()
+            except _Bad:
+                return None
+        if k == "oracle-roundtrip":
+            x = "".join(map(chr, c["s"]))
+            return json.loads(json.dumps(x)) == x
+        raise ValueError("unknown case kind " + str(k))
 
     def run_case(self, c):
         from pygls.io_ import StdoutWriter, WebSocketWriter
@@ -811,6 +863,20 @@ class C03(core.Property):
 
     # ---------------- model ----------------
     def model_input(self, c):
+        k = c["k"]
+        if k == "escape":
+            return "escape " + tok_str([c["cp"]])
+        if k == "oracle-decode":
+            return "decode " + tok_str(list(bytes.fromhex(c["stream"])))
+        if k == "oracle-loads":
+            try:
+                return "loads " + tok_str([ord(ch) for ch in bytes.fromhex(c["body"]).decode("utf-8", "strict")])
+            except UnicodeDecodeError:
+                return "loads 1 0"
+        if k == "oracle-roundtrip":
+            return "roundtrip " + tok_str(c["s"])
+        if k not in ("case", "sched"):
+            return "dumps 0"
         cfg = f"{WR[c['w']]} {1 if c['h'] else 0}"
         if c["k"] == "case":
             return f"case {cfg} {tok_sends(c['sends'])}"
@@ -820,6 +886,18 @@ class C03(core.Property):
     def model_output(self, c, t):
         if t and t[0] == "DRIVER-ERROR":
             raise RuntimeError("driver: " + " ".join(t[:20]))
+        k = c["k"]
+        hx = lambda h: "" if h == "-" else h
+        if k == "escape":
+            return {"M": hx(t[0]), "S": None, "guard": True}
+        if k == "oracle-decode":
+            return {"M": None if t[0] == "0" else [hx(h) for h in t[2:]], "S": None, "guard": True}
+        if k == "oracle-loads":
+            return {"M": None if t[0] == "0" else hx(t[1]), "S": None, "guard": True}
+        if k == "oracle-roundtrip":
+            return {"M": t[1] == "1", "S": None, "guard": True}
+        if k not in ("case", "sched"):
+            return {"M": "ok", "S": "ok", "guard": True}
         it = iter(t)
         nxt = lambda: next(it)
         def hexs():
@@ -869,6 +947,8 @@ class C03(core.Property):
             return False
 
     def satisfies(self, c, impl, S):
+        if c["k"] not in ("case", "sched"):
+            return impl == S
         if not isinstance(impl, dict):
             return False
         if c["k"] == "case":
@@ -920,6 +1000,8 @@ class C03(core.Property):
         return impl == M
 
     def nontrivial(self, c):
+        if c["k"] not in ("case", "sched"):
+            return True
         if c["k"] == "sched":
             return len(c["senders"]) >= 2
         for s in all_sends(c):
@@ -971,6 +1053,8 @@ class C03(core.Property):
             if "id" in s and s["id"] != 1:
                 d = dict(s); d["id"] = 1
                 yield d
+        if c["k"] not in ("case", "sched"):
+            return
         if c["k"] == "case":
             ss = c["sends"]
             if len(ss) > 1:
@@ -1011,9 +1095,352 @@ class C03(core.Property):
         res = core.evaluate(self, chk, cases)
         return [r for r in res if r["verdict"] == "violation"][:1]
 
+    # ---------------- runtime clauses and oracle cross-checks ----------------
+    def extra_checks(self, chk):
+        logging.disable(logging.CRITICAL)
+        viol = []
+        cov = {}
+        t0 = time.time()
+        viol += self.sweep_escape(chk, cov)
+        viol += self.cross_check_oracles(chk, cov)
+        cov["oracle_checks_s"] = round(time.time() - t0, 2)
+        t0 = time.time()
+        viol += self.pipe_stress(chk, cov)
+        cov["pipe_stress_s"] = round(time.time() - t0, 2)
+        if not chk.quick:
+            t0 = time.time()
+            viol += self.tcp_stress(chk, cov)
+            cov["tcp_stress_s"] = round(time.time() - t0, 2)
+        self.extra_coverage = {"extra": cov}
+        return viol
+
+    def sweep_escape(self, chk, cov):
+        """Base.Json.escape / dumps against json.dumps, code point by code point."""
+        if chk.quick:
+            cps = set(range(0, 0x900)) | set(range(0xD7F0, 0xE010)) | set(range(0xFFF0, 0x10010)) | \
+                  set(range(0x10FFF0, 0x110000)) | {chk.rng.randrange(0x110000) for _ in range(20000)}
+            cps = sorted(cps)
+        else:
+            cps = list(range(0x110000))
+        chunks = [cps[i:i + 2048] for i in range(0, len(cps), 2048)]
+        outs = core.run_driver("C03", ["escape " + tok_str(ch) for ch in chunks])
+        bad = []
+        for ch, o in zip(chunks, outs):
+            want = json.dumps("".join(map(chr, ch)))[1:-1].encode("ascii")
+            got = bytes.fromhex(o[0]) if o and o[0] != "-" else b""
+            if got != want:
+                # locate the first code point that differs
+                for c in ch:
+                    o1 = core.run_driver("C03", ["escape " + tok_str([c])])[0]
+                    g1 = bytes.fromhex(o1[0])
+                    if g1 != json.dumps(chr(c))[1:-1].encode("ascii"):
+                        bad.append({"case": {"k": "escape", "cp": c}, "impl": json.dumps(chr(c)), "M": g1.decode(),
+                                    "S": None, "verdict": "violation", "suffix": "no-failing-input-found"})
+                        break
+        cov["escape_code_points_compared"] = len(cps)
+        cov["escape_exhaustive"] = not chk.quick
+        return bad[:1]
+
+    def cross_check_oracles(self, chk, cov):
+        """The Python decoder / reader that judge impl |= S must be the Coq spec_decode / loads:
+        compared on well-formed and on mutated streams and bodies (a disagreement is a defect of the
+        check itself and fails it)."""
+        rng = chk.rng
+        streams, bodies = [], []
+        hdr = lambda n: b"Content-Length: %d\r\nContent-Type: application/vscode-jsonrpc; charset=utf-8\r\n\r\n" % n
+        def rbody():
+            v = to_py(self.rtree(rng, 3, special=False))
+            return json.dumps(v).encode()
+        alts = [b"Content-Length:%d\r\n\r\n", b"content-length: %d\r\n\r\n", b"CONTENT-LENGTH:\t %d\r\nX-Y: z\r\n\r\n",
+                b"Content-Length: %d\r\nContent-Length: %d\r\n\r\n", b"Content-Length: %d \r\n\r\n", b"Content-Length: +%d\r\n\r\n",
+                b"Content-Type: x\r\n\r\n", b"Content-Length: %d\n\n", b": %d\r\n\r\n", b"Content-Length: %d\r\nbad header\r\n\r\n",
+                b"Content-Length: 0%d\r\n\r\n", b"Content-Length: %d\r\nA:\r\n\r\n", b"Content-Length: %d\r\n B: c\r\n\r\n",
+                b"Content-Length : %d\r\n\r\n", b"Content-Length: %d\r\r\n\r\n"]
+        for _ in range(chk.n(300, 6000)):
+            parts = []
+            for _ in range(rng.randint(0, 3)):
+                b = rng.choice([rbody(), b"", bytes(rng.randrange(256) for _ in range(rng.randint(0, 12))), b"\r\n\r\n"])
+                if rng.random() < 0.7:
+                    parts.append(hdr(len(b)) + b)
+                else:
+                    a = rng.choice(alts)
+                    n = len(b) + rng.choice([0, 0, 0, 1, -1])
+                    parts.append((a % ((max(n, 0),) * a.count(b"%d"))) + b)
+            st = b"".join(parts)
+            r = rng.random()
+            if r < 0.3 and st:
+                i = rng.randrange(len(st))
+                st = st[:i] + st[i + 1:]
+            elif r < 0.45 and st:
+                i = rng.randrange(len(st))
+                st = st[:i] + bytes([rng.randrange(256)]) + st[i:]
+            elif r < 0.55:
+                st = st[:rng.randint(0, len(st))]
+            streams.append(st)
+        muts = [b'{"a":1}', b'{"a" : [1 , 2]}', b' [ ] ', b'{}', b'[1,]', b'{"a":1,}', b'01', b'-0', b'1.0', b'1e3', b'-', b'"\\u12"',
+                b'"\\ud83d\\ude0b"', b'"\\ud83d"', b'"\\ud83dx"', b'"\\ud83d\\u0041"', b'"\\uD83D\\uDE0B"', b'"\\x"', b'"a\nb"', b'nul', b'truee',
+                b'[1 2]', b'{"a" 1}', b'{1:2}', b'"\xc3\xa9"', b'"\xff"', b'"\xed\xa0\x80"', b'\t\n\r 7 \n', b'', b' ', b'[[[[[[1]]]]]]', b'"\\/"',
+                b'{"a":{"a":{"b":[]}}}', b'"\\udc00\\ud800"', b'-12', b'--1', b'1 1', b'"a" "b"', b'[null,true,false]', b'"\x7f"', b'"\x1f"']
+        for _ in range(chk.n(300, 6000)):
+            b = rbody()
+            r = rng.random()
+            if r < 0.35 and b:
+                i = rng.randrange(len(b))
+                b = b[:i] + b[i + 1:]
+            elif r < 0.6:
+                i = rng.randint(0, len(b))
+                b = b[:i] + rng.choice([b" ", b",", b'"', b"\\", b"]", b"{", b"0", b"-", b"\\u00", b"\xc3\xa9", b"\n"]) + b[i:]
+            bodies.append(b)
+        bodies += muts
+        out = []
+        douts = core.run_driver("C03", ["decode " + tok_str(list(st)) for st in streams])
+        nd = 0
+        for st, o in zip(streams, douts):
+            want = py_decode(st)
+            got = None if o[0] == "0" else [bytes.fromhex(h) if h != "-" else b"" for h in o[2:]]
+            if want is not None:
+                nd += 1
+            if want != got:
+                out.append({"case": {"k": "oracle-decode", "stream": st.hex()}, "impl": None if want is None else [w.hex() for w in want],
+                            "M": None if got is None else [g.hex() for g in got], "S": None, "verdict": "violation",
+                            "suffix": "no-failing-input-found"})
+                break
+        # Coq loads works on code points: bodies that are not valid UTF-8 are rejected by the reader before
+        louts_in, lidx = [], []
+        for k, b in enumerate(bodies):
+            try:
+                cps = [ord(ch) for ch in b.decode("utf-8", "strict")]
+            except UnicodeDecodeError:
+                continue
+            lidx.append(k)
+            louts_in.append("loads " + tok_str(cps))
+        louts = core.run_driver("C03", louts_in) if louts_in else []
+        nl = 0
+        for k, o in zip(lidx, louts):
+            b = bodies[k]
+            try:
+                t = py_loads(b)
+                want = json.dumps(ordered_py(t)).encode("ascii")
+                nl += 1
+            except _Bad:
+                want = None
+            got = None if o[0] == "0" else (bytes.fromhex(o[1]) if o[1] != "-" else b"")
+            if want != got:
+                out.append({"case": {"k": "oracle-loads", "body": b.hex()}, "impl": None if want is None else want.hex(),
+                            "M": None if got is None else got.hex(), "S": None, "verdict": "violation",
+                            "suffix": "no-failing-input-found"})
+                break
+        # unescape . escape = id exactly on the pair-free strings
+        strs = [self.rstring(rng, 10, pairs=True) for _ in range(chk.n(500, 10000))]
+        routs = core.run_driver("C03", ["roundtrip " + tok_str(s) for s in strs])
+        for s_, o in zip(strs, routs):
+            pf = not any(0xD800 <= a <= 0xDBFF and 0xDC00 <= b <= 0xDFFF for a, b in zip(s_, s_[1:]))
+            py_rt = json.loads(json.dumps("".join(map(chr, s_)))) == "".join(map(chr, s_))
+            if (o[0] == "1") != pf or (o[1] == "1") != py_rt or (pf and not py_rt):
+                out.append({"case": {"k": "oracle-roundtrip", "s": s_}, "impl": [pf, py_rt], "M": o, "S": None,
+                            "verdict": "violation", "suffix": "no-failing-input-found"})
+                break
+        cov.update({"oracle_streams": len(streams), "oracle_streams_accepted": nd, "oracle_bodies": len(louts_in),
+                    "oracle_bodies_accepted": nl, "oracle_roundtrip_strings": len(strs)})
+        return out
+
+    def pipe_stress(self, chk, cov):
+        """Real threads, the real StdoutWriter over a BufferedWriter on a real os.pipe, payloads of
+        several pipe buffers; the far end is decoded by the strict decoder: whole frames only, every
+        sender's messages complete and in its own order.  The verdict does not depend on timing."""
+        from pygls.io_ import StdoutWriter
+        from pygls.lsp.server import LanguageServer
+        nthreads = 8
+        per = chk.n(3, 12)
+        size = chk.n(160 * 1024, 300 * 1024)
+        p = LanguageServer("c03-stress", "v1").protocol
+        r, w = os.pipe()
+        wf = os.fdopen(w, "wb")
+        p.set_writer(StdoutWriter(wf))
+        got = bytearray()
+        def reader():
+            while True:
+                b = os.read(r, 1 << 16)
+                if not b:
+                    return
+                got.extend(b)
+        rt = threading.Thread(target=reader, daemon=True)
+        rt.start()
+        errs = []
+        pads = ["x", "\u00e9", "\u20ac", "\U0001F60B", "\"\\\n", "\x7f\x00", "\ud800", "mixed \u00e9\U0001F60B\"\n"]
+        def pad(i, k):
+            unit = pads[(i + k) % len(pads)]
+            body_per_unit = len(json.dumps(unit)) - 2
+            return unit * max(1, (size if k % 2 == 0 else 900) // body_per_unit)
+        def sender(i):
+            try:
+                for k in range(per):
+                    kind = (i + k) % 3
+                    payload = {"sender": i, "seq": k, "pad": pad(i, k)}
+                    if kind == 0:
+                        p.notify("stress/n", payload)
+                    elif kind == 1:
+                        p._send_response(1000 * i + k, payload)
+                    else:
+                        p.send_request("stress/r", payload, msg_id=f"q{i}-{k}")
+            except BaseException as ex:   # noqa
+                errs.append(repr(ex))
+        async def loop_sender(i):
+            for k in range(per):
+                p.notify("stress/loop", {"sender": i, "seq": k, "pad": pad(i, k)})
+                await asyncio.sleep(0)
+        def loop_thread():
+            loop = asyncio.new_event_loop()
+            try:
+                async def main():
+                    await asyncio.wait_for(asyncio.gather(loop_sender(nthreads), loop_sender(nthreads + 1)), 120)
+                loop.run_until_complete(main())
+            except BaseException as ex:   # noqa
+                errs.append(repr(ex))
+            finally:
+                loop.close()
+        ths = [threading.Thread(target=sender, args=(i,), daemon=True) for i in range(nthreads)]
+        ths.append(threading.Thread(target=loop_thread, daemon=True))
+        for t in ths:
+            t.start()
+        hung = False
+        deadline = time.time() + 120
+        for t in ths:
+            t.join(max(0.1, deadline - time.time()))
+            hung = hung or t.is_alive()
+        try:
+            wf.close()
+        except Exception as ex:
+            errs.append(repr(ex))
+        rt.join(30)
+        hung = hung or rt.is_alive()
+        try:
+            os.close(r)
+        except OSError:
+            pass
+        nsend = nthreads + 2
+        rec = {"case": {"k": "pipe-stress", "threads": nthreads, "loop_coroutines": 2, "messages_each": per, "payload_bytes": size},
+               "S": "whole frames; per-sender order", "verdict": "violation"}
+        cov.update({"stress_senders": nsend, "stress_messages": nsend * per, "stress_bytes": len(got), "stress_payload_bytes": size})
+        if hung or errs:
+            rec["impl"] = {"hung": hung, "errors": errs[:3]}
+            return [rec]
+        bodies = py_decode(bytes(got))
+        if bodies is None:
+            rec["impl"] = {"torn": True, "stream_head": bytes(got[:300]).hex()}
+            return [rec]
+        seqs = {}
+        try:
+            for b in bodies:
+                t = ordered_py(py_loads(b))
+                pl = t.get("params", t.get("result"))
+                seqs.setdefault(pl["sender"], []).append(pl["seq"])
+                if pl["pad"] != pad(pl["sender"], pl["seq"]):
+                    raise _Bad("payload changed")
+        except (_Bad, KeyError, TypeError, AttributeError) as ex:
+            rec["impl"] = {"bad_body": repr(ex)}
+            return [rec]
+        if sorted(seqs) != list(range(nsend)) or any(v != list(range(per)) for v in seqs.values()):
+            rec["impl"] = {"order": {str(k): v for k, v in seqs.items()}}
+            return [rec]
+        cov["stress_frames_decoded"] = len(bodies)
+        return []
+
+    def tcp_stress(self, chk, cov):
+        """The configuration the atomicity assumption does NOT cover: an asyncio StreamWriter (as
+        start_tcp sets it) written to from pool threads with frames larger than the socket buffer
+        and a slow reader.  Judged by the spec decoder when every byte arrived; otherwise noted."""
+        import socket
+        from pygls.lsp.server import LanguageServer
+        runs, torn, incomplete = 0, 0, 0
+        out = []
+        for nthreads, per, size in ((6, 6, 300 * 1024), (12, 10, 100 * 1024)):
+            p = LanguageServer("c03-tcp", "v1").protocol
+            loop = asyncio.new_event_loop()
+            got = bytearray()
+            done = threading.Event()
+            port = []
+            errs = []
+            def sender(i):
+                try:
+                    for k in range(per):
+                        p.notify("s/n", {"sender": i, "seq": k, "pad": "x" * size})
+                except BaseException as ex:    # noqa
+                    errs.append(repr(ex))
+            async def handler(reader, writer):
+                p.set_writer(writer)
+                ths = [threading.Thread(target=sender, args=(i,), daemon=True) for i in range(nthreads)]
+                for t in ths:
+                    t.start()
+                end = time.time() + 60
+                while any(t.is_alive() for t in ths) and time.time() < end:
+                    await asyncio.sleep(0.01)
+                try:
+                    await asyncio.wait_for(writer.drain(), 30)
+                except Exception as ex:
+                    errs.append(repr(ex))
+                writer.close()
+            async def main():
+                server = await asyncio.start_server(handler, "127.0.0.1", 0)
+                port.append(server.sockets[0].getsockname()[1])
+                async with server:
+                    await asyncio.wait_for(asyncio.get_running_loop().run_in_executor(None, done.wait), 120)
+            def client():
+                try:
+                    end = time.time() + 30
+                    while not port and time.time() < end:
+                        time.sleep(0.01)
+                    s_ = socket.create_connection(("127.0.0.1", port[0]), timeout=30)
+                    s_.settimeout(30)
+                    while True:
+                        b = s_.recv(1 << 16)
+                        if not b:
+                            break
+                        got.extend(b)
+                        time.sleep(0.0005)
+                    s_.close()
+                except Exception as ex:
+                    errs.append(repr(ex))
+                finally:
+                    done.set()
+            ct = threading.Thread(target=client, daemon=True)
+            ct.start()
+            try:
+                loop.run_until_complete(main())
+            except Exception as ex:
+                errs.append(repr(ex))
+            finally:
+                done.set()
+                ct.join(40)
+                loop.close()
+            runs += 1
+            one = len(json.dumps({"method": "s/n", "jsonrpc": "2.0", "params": {"sender": 0, "seq": 0, "pad": "x" * size}}))
+            bodies = py_decode(bytes(got))
+            complete = bodies is not None and len(bodies) == nthreads * per
+            if bodies is None and len(got) >= nthreads * per * one:
+                torn += 1
+                out.append({"case": {"k": "tcp-thread-stress", "threads": nthreads, "messages_each": per, "payload_bytes": size},
+                            "impl": {"torn": True, "bytes": len(got), "errors": errs[:3]},
+                            "S": "whole frames", "verdict": "violation"})
+            elif not complete:
+                incomplete += 1
+                chk.notes.append(f"tcp stress inconclusive: {len(got)} bytes, errors {errs[:2]}")
+            else:
+                seqs = {}
+                for b in bodies:
+                    pl = ordered_py(py_loads(b))["params"]
+                    seqs.setdefault(pl["sender"], []).append(pl["seq"])
+                if any(v != list(range(per)) for v in seqs.values()):
+                    out.append({"case": {"k": "tcp-thread-stress", "threads": nthreads}, "impl": {"order": {str(k): v for k, v in seqs.items()}},
+                                "S": "per-sender order", "verdict": "violation"})
+        cov.update({"tcp_stress_runs": runs, "tcp_stress_torn": torn, "tcp_stress_incomplete": incomplete})
+        return out[:1]
+
     def distribution(self, cases):
         d = {}
         for c in cases:
+            if c["k"] not in ("case", "sched"):
+                continue
             key = f"{c['k']}/{c['fl']}/{c['w']}/{'hdr' if c['h'] else 'nohdr'}"
             d[key] = d.get(key, 0) + 1
             for s in all_sends(c):
